@@ -53,3 +53,35 @@ def lemma(x, y):
                 ("same_observable_state", "y._est_elements == x._est_elements and y._els_added == x._els_added and "
                                           "y._fpr == x._fpr and len(y._bloom) == len(x._bloom) and "
                                           "all(y._bloom[i] == x._bloom[i] for i in range(0, len(x._bloom)))")])
+
+
+# ---- expanding filter: frombytes(bytes(x)) has the same sub-filters, counters and parameters, and re-exports the same bytes
+_XR = ["inv_exp(x)", "0 <= x._added_elements < 2**64 and eb_est(x) < 2**64 and len(x._blooms) < 2**64",
+       "(eb_fpr(x) < 0.0 or f32(eb_fpr(x)) > 0.0) and 0 <= eb_fpr(x) < 1"]
+lemma("P.C05.expanding_bytes_roundtrip", '''
+def lemma(x, k):
+    b = bytes(x)
+    n = len(x._blooms)
+    c = eb_cells(x)
+    assert len(b) == smul(n, c + 8) + 28
+    assert le_bytes(b, len(b) - 28, 8) == n
+    assert le_bytes(b, len(b) - 20, 8) == eb_est(x)
+    assert le_bytes(b, len(b) - 12, 8) == x._added_elements
+    assert f32_at(b, len(b) - 4) == f32(eb_fpr(x))
+    y = ExpandingBloomFilter.frombytes(b, eb_hf(x))
+    assert len(y._blooms) == n and eb_est(y) == eb_est(x) and y._added_elements == x._added_elements
+    assert eb_fpr(y) == f32(eb_fpr(x)) and eb_hf(y) == eb_hf(x)
+    assert eb_cells(y) == c
+    assert y._blooms[k]._num_bits == x._blooms[k]._num_bits and y._blooms[k]._number_hashes == x._blooms[k]._number_hashes
+    assert y._blooms[k]._est_elements == x._blooms[k]._est_elements and y._blooms[k]._fpr == x._blooms[k]._fpr
+    # the cells of an arbitrary sub-filter k (k is a parameter of the lemma, hence universally quantified)
+    assert smul(k, c + 8) >= 0 and smul(k, eb_cells(y) + 8) == smul(k, c + 8)      # (ground terms for the record of k)
+    assert le_bytes(b, smul(k, c + 8), 8) == x._blooms[k]._els_added
+    assert le_bytes(b, smul(k, c + 8), 8) == y._blooms[k]._els_added
+    assert y._blooms[k]._els_added == x._blooms[k]._els_added
+    assert all(y._blooms[k]._bloom[j] == b[smul(k, c + 8) + 8 + j] for j in range(0, c))
+    assert all(x._blooms[k]._bloom[j] == b[smul(k, c + 8) + 8 + j] for j in range(0, c))
+    assert all(y._blooms[k]._bloom[j] == x._blooms[k]._bloom[j] for j in range(0, c))
+    assert len(y._blooms[k]._bloom) == c and len(x._blooms[k]._bloom) == c
+''', properties=["C05", "C01", "C09"], params={"x": "obj:ExpandingBloomFilter", "k": "int"},
+      requires=_XR + ["0 <= k < len(x._blooms)"])
